@@ -905,4 +905,45 @@ def convs11installed : List (String × Conv) := [("ne", convNe11), ("te", convTe
 
 def convs15 : List (String × Conv) := [("ne", .perCm3), ("te", .id), ("rate", .cm3), ("wl", .angstrom)]
 
+/-! ## install.py `install_files`: the bulk entry point (configuration dict → installers) -/
+
+/-- configuration key (compared after `.lower()`) → installer → keyword arguments handed on.  Transcribed from the chain
+of `if adf.lower() == …` statements; pinned to the source by `dispatch_table_pinned`. -/
+def installDispatch : List (String × String × String) := [
+  ("adf11scd", "install_adf11scd", "download=download repository_path=repository_path adas_path=adas_path"),
+  ("adf11acd", "install_adf11acd", "download=download repository_path=repository_path adas_path=adas_path"),
+  ("adf11ccd", "install_adf11ccd", "download=download repository_path=repository_path adas_path=adas_path"),
+  ("adf11plt", "install_adf11plt", "download=download repository_path=repository_path adas_path=adas_path"),
+  ("adf11prb", "install_adf11prb", "download=download repository_path=repository_path adas_path=adas_path"),
+  ("adf11prc", "install_adf11prc", "download=download repository_path=repository_path adas_path=adas_path"),
+  ("adf12", "install_adf12", "download=download repository_path=repository_path adas_path=adas_path"),
+  ("adf15", "install_adf15", "download=download repository_path=repository_path adas_path=adas_path"),
+  ("adf21", "install_adf21", "download=download repository_path=repository_path adas_path=adas_path"),
+  ("adf22bmp", "install_adf22bmp", "download=download repository_path=repository_path adas_path=adas_path"),
+  ("adf22bme", "install_adf22bme", "download=download repository_path=repository_path adas_path=adas_path")
+]
+
+/-- installer → parser called, notation class given to `_notation_adf11_adas2cherab`, repository update calls -/
+def installerTable : List (String × String × String × String) := [
+  ("install_adf11scd", "parse_adf11", "scd", "update_ionisation_rates(repository_path)"),
+  ("install_adf11acd", "parse_adf11", "acd", "update_recombination_rates(repository_path)"),
+  ("install_adf11ccd", "parse_adf11", "ccd", "update_thermal_cx_rates(repository_path)"),
+  ("install_adf11plt", "parse_adf11", "plt", "update_line_power_rates(repository_path)"),
+  ("install_adf11prb", "parse_adf11", "prb", "update_continuum_power_rates(repository_path)"),
+  ("install_adf11prc", "parse_adf11", "prc", "update_cx_power_rates(repository_path)"),
+  ("install_adf12", "parse_adf12", "", "update_beam_cx_rates(repository_path)"),
+  ("install_adf15", "parse_adf15", "", "update_pec_rates(repository_path) update_wavelengths(repository_path) update_pec_thermal_cx_rates(repository_path)"),
+  ("install_adf21", "parse_adf21", "", "update_beam_stopping_rates(repository_path)"),
+  ("install_adf22bmp", "parse_adf22bmp", "", "update_beam_population_rates(repository_path)"),
+  ("install_adf22bme", "parse_adf22bme", "", "update_beam_emission_rates(repository_path)")
+]
+
+/-- the installers that `install_files` runs for one configuration key, in order (the `if`s are not exclusive) -/
+def installFilesTargets (key : String) : List String :=
+  (installDispatch.filter fun e => e.1 == String.ofList (key.toList.map Char.toLower)).map (·.2.1)
+
+/-- what an installer writes: its repository update calls -/
+def installerWrites (name : String) : Option String :=
+  (installerTable.find? fun e => e.1 == name).map (·.2.2.2)
+
 end Cherab.Adf
